@@ -49,8 +49,10 @@ structure Context where
   caretCount : Nat
   deriving DecidableEq, Repr
 
-/-- what is printed for token `t` of `src`; `none` when nothing is printed (the token sits on the
-non-existent line after the final line feed and is at the end of the text) -/
+/-- what is printed for token `t` of `src`.  A token at the very end of a text that ends with a line feed sits on a
+line of its own, which `str::lines` does not yield: it is shown as an empty line (before the repair of the end-of-file
+diagnostic nothing at all was printed there: no location, no echo, no caret).  `none` stands for the "invalid line
+number" internal error. -/
 def context (w : Char → Nat) (src : List Char) (t : Tok) : Option Context :=
   let width := if t.length = 0 then 1 else t.length
   match (lines src)[t.line]? with
@@ -58,6 +60,11 @@ def context (w : Char → Nat) (src : List Char) (t : Tok) : Option Context :=
     let r := scan w t.column width line 0
     some { lineNumber := t.line + 1, columnNumber := t.column + 1, echoed := expandTabs line,
            caretOffset := r.1, caretCount := max r.2 1 }
-  | none => none
+  | none =>
+    if t.offset = utf8Len src then
+      let r := scan w t.column width [] 0
+      some { lineNumber := t.line + 1, columnNumber := t.column + 1, echoed := expandTabs [],
+             caretOffset := r.1, caretCount := max r.2 1 }
+    else none
 
 end Just.Render
